@@ -247,7 +247,7 @@ AlgOp(op, h, arg, keys, n) ==
     [] op = "validate" ->                                             \* :1091 cfg.clone(), :1111-1129 check_values
          LET cl == Clone(h, arg, n)
              r == OverKeys(cl.h, cl.c, Ordered(keys, Deep), 1, "parse", FALSE, cl.n) IN Out(r.h, r.ok, None)
-    [] op = "dump" ->                                                 \* :786 strip_meta, :792 validate, :795 _dump_cleanup_actions
+    [] op \in {"dump", "save1"} ->                                     \* :786 strip_meta, :792 validate, :795 _dump_cleanup_actions; save(multifile=False) = dump (:909-911)
          LET c1 == Clone(h, arg, n)
              c2 == Clone(c1.h, c1.c, c1.n)
              v  == OverKeys(c2.h, c2.c, Ordered(keys, Deep), 1, "parse", FALSE, c2.n) IN
@@ -256,7 +256,7 @@ AlgOp(op, h, arg, keys, n) ==
     [] op = "instantiate_classes" ->                                  \* :1230 strip_meta, :1245 parent[key] = component.instantiate_classes(value)
          LET cl == Clone(h, arg, n)
              r == OverKeys(cl.h, cl.c, Ordered(keys, Deepdecl), 1, "inst", TRUE, cl.n) IN Out(r.h, r.ok, cl.c)
-    [] op = "save" ->                                                 \* :914 clone, :919 validate(strip_meta(cfg)), :951 dump(cfg, skip_validation=True)
+    [] op = "save" ->                                                 \* multifile: :914 clone FIRST, :915 strip_link_target_keys on the clone, :919 validate(strip_meta(cfg)), :951 dump(cfg, skip_validation=True)
          LET c0 == Clone(h, arg, n)
              c1 == Clone(c0.h, c0.c, c0.n)
              c2 == Clone(c1.h, c1.c, c1.n)
@@ -350,7 +350,7 @@ AsAlg(hpre, roots, hobs, halg) ==
 \*                          configuration that shares tuples with the parser's declared defaults (or with namespace=)
 Route(op) == IF op = "parse_object" THEN "arg"
              ELSE IF op \in {"validate", "instantiate_classes"} THEN "below-tuple/check"
-             ELSE IF op \in {"dump", "save"} THEN "below-tuple/serialise"
+             ELSE IF op \in {"dump", "save", "save1"} THEN "below-tuple/serialise"
              ELSE "below-tuple/defaults"
 \* objects of the pre-heap that the Alg layer modified
 Touched(hpre, halg) == {id \in DOMAIN hpre : id \notin DOMAIN halg \/ halg[id] # hpre[id]}
